@@ -22,6 +22,8 @@ RULE = (
     'iterdecode and directly with final flag) and to stream reader/writer; output must equal the one-shot result and have '
     'the right type. Non-trivial: a cut strictly inside BOM / charset rule / multi-byte sequence, or a charset name '
     'rewrite; distinct by (bytes, cuts).'
+    ' The decoder class is also driven through its own iterdecode(), reused after reset() for another document, and rebuilt '
+    'from getstate()/setstate() between all chunks.'
 )
 ASSUMPTIONS = [
     'Python standard codecs are the oracle for encode/decode of a given encoding',
@@ -392,6 +394,33 @@ def _check_chunk(case, ctx, found):
             parts = [d.decode(c, i == len(bchunks) - 1) for i, c in enumerate(bchunks)]
         if any(not isinstance(x, str) for x in parts) or ''.join(parts) != exp_text:
             raise Violation('chunking:incrementaldecoder-' + label, f'{[c.hex() for c in bchunks]} {k} -> {parts!r}, one-shot {exp_text!r}')
+        # --- the decoder class's own iterdecode, a decoder reused after reset(), and save/restore of its state
+        with lib('decoder-iterdecode-' + label):
+            d2 = cssutils.codec.IncrementalDecoder(**k)
+            parts = list(d2.iterdecode(bchunks))
+        if ''.join(parts) != exp_text:
+            raise Violation('chunking:decoder.iterdecode-' + label, f'{[c.hex() for c in bchunks]} {k} -> {parts!r}, one-shot {exp_text!r}')
+        with lib('decoder-reset-' + label):
+            d2.reset()
+            other = b'@charset "latin-1";x\xe9' if label == 'auto' else exp_bytes
+            other_exp = codecs.getdecoder('css')(other, **k)[0]
+            got = d2.decode(other, True)
+            d2.reset()
+            again = ''.join(d2.decode(c, i == len(bchunks) - 1) for i, c in enumerate(bchunks))
+        if got != other_exp or again != exp_text:
+            raise Violation('chunking:decoder-reused-after-reset-' + label, f'{[c.hex() for c in bchunks]} {k}: second document {got!r} (one-shot {other_exp!r}), '
+                            f'third {again!r} (one-shot {exp_text!r})')
+        with lib('decoder-state-' + label):
+            d3 = codecs.getincrementaldecoder('css')(**k)
+            out = []
+            for i, c in enumerate(bchunks):
+                out.append(d3.decode(c, i == len(bchunks) - 1))
+                if i < len(bchunks) - 1:
+                    st_ = d3.getstate()
+                    d3 = codecs.getincrementaldecoder('css')(**k)
+                    d3.setstate(st_)
+        if ''.join(out) != exp_text:
+            raise Violation('chunking:decoder-getstate-setstate-' + label, f'{[c.hex() for c in bchunks]} {k} -> {out!r}, one-shot {exp_text!r}')
 
         # --- stream reader (an empty read means end of stream, so no empty chunks here)
         if only == 'writer':
